@@ -50,8 +50,46 @@ type poolAnalysis struct {
 	aliases  map[string]bool // locals defined as `x := v` / `x := *v`: using them is using the pooled object
 }
 
+// poolNames: package-level variables and struct fields of type sync.Pool (filled by genPool)
+var poolNames = map[string]bool{}
+
 func isPoolRecv(txt string) bool {
-	return strings.HasSuffix(txt, ".ctx") || strings.HasSuffix(txt, "Pool") || strings.HasSuffix(txt, "pool")
+	if i := strings.LastIndexByte(txt, '.'); i >= 0 {
+		txt = txt[i+1:]
+	}
+	return poolNames[txt]
+}
+
+func collectPoolNames(r *Repo) {
+	poolNames = map[string]bool{}
+	for f, file := range r.Files {
+		if strings.Contains(f, "/") {
+			continue
+		}
+		ast.Inspect(file, func(n ast.Node) bool {
+			switch x := n.(type) {
+			case *ast.ValueSpec:
+				isPool := x.Type != nil && r.Text(x.Type) == "sync.Pool"
+				for _, v := range x.Values {
+					if cl, ok := v.(*ast.CompositeLit); ok && r.Text(cl.Type) == "sync.Pool" {
+						isPool = true
+					}
+				}
+				if isPool {
+					for _, nm := range x.Names {
+						poolNames[nm.Name] = true
+					}
+				}
+			case *ast.Field:
+				if x.Type != nil && r.Text(x.Type) == "sync.Pool" {
+					for _, nm := range x.Names {
+						poolNames[nm.Name] = true
+					}
+				}
+			}
+			return true
+		})
+	}
 }
 
 // acquisition: `v := X.Get()` / `v := X.Get().(*T)` / `v = …`
@@ -137,11 +175,19 @@ func (a *poolAnalysis) findAliases(body *ast.BlockStmt) {
 		}
 		for i, rhs := range as.Rhs {
 			e := rhs
-			if st, ok := e.(*ast.StarExpr); ok {
-				e = st.X
-			}
-			if pe, ok := e.(*ast.ParenExpr); ok {
-				e = pe.X
+			for {
+				switch x := e.(type) {
+				case *ast.StarExpr:
+					e = x.X
+					continue
+				case *ast.ParenExpr:
+					e = x.X
+					continue
+				case *ast.SliceExpr:
+					e = x.X
+					continue
+				}
+				break
 			}
 			if a.isVar(e) {
 				if id, ok := as.Lhs[i].(*ast.Ident); ok && id.Name != "_" && id.Name != a.v {
@@ -238,6 +284,9 @@ func (a *poolAnalysis) transfer(n ast.Node, in poolState) poolState {
 			if a.isVar(res) {
 				esc = true
 			}
+			if id, ok := res.(*ast.Ident); ok && a.aliases[id.Name] {
+				esc = true
+			}
 		}
 		if esc {
 			each(func(phase int, d bool) (int, bool) {
@@ -311,6 +360,7 @@ func (a *poolAnalysis) run(body *ast.BlockStmt) {
 }
 
 func genPool(r *Repo) (string, error) {
+	collectPoolNames(r)
 	kinds := map[string]bool{}
 	var details []string
 	sites := 0
